@@ -3,10 +3,62 @@ LEAN_MODULES = ["Sif.Props.C13"]
 EXTRACT = []
 FAMILIES = [
     {"name": "margin", "family": "margin", "group": "margin", "driver": "drv_margin",
-     "n_quick": 60000, "n_thorough": 400000, "seeds_thorough": 4},
+     "n_quick": 60000, "n_thorough": 400000, "seeds_thorough": 5},
 ]
-RULE = "see MANIFEST"
-TRUSTED_BASE = []
-ASSUMPTIONS = []
-UNPROVED = ["everything (skeleton)"]
-MANIFEST = {"text": "skeleton", "note": "skeleton", "technique": "Lean 4 proof + differential correspondence (model vs real Go)", "design_ref": "4/C13"}
+RULE = ("margin (L1, real SifchainApp, real margin+clp keepers and message servers): histories of 30-90 operations on two pools of "
+        "random depth (10^18..10^27 native, external/native ratio 10^-3..10^3) with random parameters (leverage max 1.5..10, safety factor "
+        "0.5..1.6, epoch length 1..7, fund percentages 0..1, incremental payment on/off, max open positions 3 or 10000): Open (both "
+        "collateral directions, amounts 0..3x pool depth, leverage 1..max+1, SHORT, unknown pool, both-native, both-non-native, same asset "
+        "twice), Close (owner, outsider, unknown id), AdminClose/ForceClose (administrator and non-administrators, with/without fund cut), "
+        "BeginBlocker every block (epoch boundaries with interest, liquidations), real clp Swap/AddLiquidity/RemoveLiquidity moving the "
+        "price by up to 60% of depth, administrator parameter changes (including fund addresses set to a module account, safety factor "
+        "100), plus 5 directed histories per run (the configurations of F14/F14b/F14c).  After every operation: full state dump compared "
+        "with the model (pools: 13 fields, positions: 13 fields, counters, 7 accounts x 3 denoms) and MarginOK judged on the "
+        "implementation's dump; after every successful Open: health, collateral taken, asset pair; after every removal by message: closer; "
+        "after every epoch hook: each liquidated position's health as the hook computed it.  non-trivial = distinct successful "
+        "Open/Close/AdminClose or epoch-boundary BeginBlocker line")
+TRUSTED_BASE = [
+    "Lean 4.33.0 kernel; axioms propext, Classical.choice, Quot.sound (audited per theorem on every run)",
+    "hand-written Lean model of x/margin (keeper.go, msg_server.go, admin_msg_server.go, abci.go, calculations.go) and of the clp swap "
+    "calculator it calls (lead's Sif.Model.Clp.Calc), tied to the Go code only by differential execution (state dumps after every operation)",
+    "Go harness (set-up, line protocol, the step-by-step replay of the hook loop used to observe per-position health) and the Lean driver's parser",
+    "cosmos-sdk x/bank (send, blocked recipients), x/auth module accounts, store/cachekv branching: modelled, exercised by the correspondence",
+    "environment value: the interest rate InterestRateComputation returns per pool and epoch (math.Pow via GetSQFromBlocks); the theorems hold for every value",
+    "decimal->float64->big.Rat conversion (Dec.MustFloat64, Rat.SetFloat64) modelled exactly for normal doubles (Sif.F64), exercised by the correspondence",
+]
+ASSUMPTIONS = [
+    "the 64-bit position-id counter does not wrap (mtpCount + number of Opens < 2^64)",
+    "WF: distinct position keys and pool symbols, no pool of the native asset, ids handed out by the counter (holds from an empty "
+    "margin store; genesis import of positions does not restore the counters — DESIGN observation O2 — and is outside the histories)",
+    "address strings of equal length (bech32 of 20-byte addresses): store order of positions = (address, id)",
+    "pools are neither created nor removed in mid-history (x/clp DecommissionPool of a pool with open positions is outside the model)",
+    "theorems are about the repaired code (fixes/F14.diff, F14b.diff, F14c.diff applied in /repo's working tree); the pinned variants are refuted by the pinned_* theorems",
+]
+UNPROVED = [
+    "open_takes_exactly and close_moves_only_between (bank accounts touched by Open/Close/liquidation/interest are only trader, clp module, "
+    "the two fund addresses): stated as decidable predicates and judged on the implementation after every Open (c13.opentakes) and by the "
+    "exact bank correspondence after every operation, but not yet proved as theorems",
+    "forced_only_unhealthy as a theorem about the hook (a position removed in BeginBlocker had health <= safety factor when the hook "
+    "valued it): judged on the implementation for every liquidation (c13.forced); the message-path half (only owner or administrator "
+    "removes a position) is proved (only_owner_or_admin_closes)",
+    "the health the hook tests is the one computed before that block's interest payment (stale by one payment); the property is stated and "
+    "checked with that value, as the code defines it",
+    "no theorem relates MarginOK to x/clp's own messages beyond the environment step of `run` (swaps and liquidity changes are modelled as "
+    "arbitrary changes of the two balance fields; that they do not touch custody/liabilities is checked on the implementation after every clp operation)",
+]
+MANIFEST = {
+    "text": "Lean 4 theorems over a model of x/margin that sequences every SetPool/SetMTP/bank write: MarginOK (pool custody and "
+            "liabilities per side = sums over positions, open counter = number of positions) is preserved by Open/Close/AdminClose/"
+            "ForceClose on every exit, by the non-atomic BeginBlocker on every exit of every position's processing and for every interest "
+            "rate, and along every history; closed positions disappear; only owner or administrator closes by message; Open implies "
+            "health > safety factor. Tied to the Go code by exact differential execution of real keepers on generated histories and by "
+            "judging the same predicates on the implementation's dumped state after every operation.",
+    "note": "Theorems are about the repaired tree (three defects of the pinned tree — F14 failed fund transfer persists a half-updated "
+            "position, F14b liquidation failing after TakeOutCustody, F14c positions between two non-native assets — are reproduced by the "
+            "check when a patch is reverted and refuted in Lean by kernel-checked witnesses). Not proved, only tested on the "
+            "implementation: bank-account locality of Open/Close, and the hook half of liquidation-only-when-unhealthy. Trusted: Lean "
+            "kernel, hand-written model (tied by correspondence only), harness/driver, x/bank and store branching as modelled, interest "
+            "rate as an environment value.",
+    "technique": "Lean 4 proof + differential correspondence (model vs real Go)",
+    "design_ref": "4/C13",
+}
